@@ -1280,6 +1280,10 @@ def apply_policy(model, policy, seed):
             for pname, p in m.named_parameters(recurse=False):
                 full = (mname + "." if mname else "") + pname
                 if pname == "temperature":
+                    # a learned temperature differs from the constructor's value after training (stays positive; only
+                    # lowered, so that inputs placed for the configured temperature stay inside the eps clamp band)
+                    if policy != "zero":
+                        p.mul_(float(torch.exp(-0.7 * torch.rand((), generator=g))))
                     continue
                 if pname in _KEEP:
                     if policy != "zero" and pname == "q_vectors":
